@@ -206,7 +206,8 @@ class Walker:
             # I3 / I2
             p_max = eqa.p_max
             if not self.power_mode and user_gain is not None:
-                pout = pref_total + prev_dp - loss - prev_voa + user_gain
+                # total power the operator's gain would deliver: what enters the amplifier, minus its input VOA, plus gain
+                pout = pref_total + prev_dp - loss - prev_voa - in_voa + user_gain
                 exp = user_gain + min(0.0, p_max - pout)
                 ctx.count('i3_checks')
                 if exp == user_gain:
@@ -216,7 +217,12 @@ class Walker:
                 if abs(node.effective_gain - exp) > 1e-9:
                     ctx.violation('I3-operator-gain', f'{node.uid}: operator gain {user_gain} dB became '
                                   f'{node.effective_gain:.6f} dB (expected {exp:.6f}: kept unless total power '
-                                  f'{pout:.3f} dBm exceeds p_max {p_max})')
+                                  f'{pout:.3f} dBm exceeds p_max {p_max}; input VOA {in_voa} dB)',
+                                  # witness predicate of the listed finding: the gain is the one obtained when the
+                                  # output power is estimated without the input VOA
+                                  mechanism='gain-mode-saturation-test-ignores-input-voa'
+                                  if in_voa and abs(node.effective_gain -
+                                                    (user_gain + min(0.0, p_max - (pout + in_voa)))) < 1e-9 else None)
             else:
                 base_voa = user_voa if user_voa else 0.0
                 if user_dp is not None:
